@@ -293,7 +293,11 @@ pub fn run_cases(kind: &str, seed: u64, total: u64, workers: u64) -> Outcome {
 /// run a single described case in a child (`__worker <kind>one <json>`); returns the report or
 /// how the child died
 pub fn run_one(kind: &str, case_json: &str) -> Result<CaseReport, String> {
-    let mut child = Command::new(exe()).args(["__worker", &format!("{kind}one"), case_json]).stdout(Stdio::piped()).stderr(Stdio::null()).spawn().map_err(|e| format!("{STALL}: cannot start a worker process: {e}"))?;
+    // the case goes through stdin: a mutated input of some tens of kilobytes does not fit on a command line
+    let mut child = Command::new(exe()).args(["__worker", &format!("{kind}one"), "-"]).stdin(Stdio::piped()).stdout(Stdio::piped()).stderr(Stdio::null()).spawn().map_err(|e| format!("{STALL}: cannot start a worker process: {e}"))?;
+    if let Some(mut stdin) = child.stdin.take() {
+        let _ = stdin.write_all(case_json.as_bytes());
+    }
     // bounded wait: a child that neither finishes nor dies within 60 s is killed
     let t0 = Instant::now();
     loop {
@@ -323,6 +327,26 @@ pub fn run_one(kind: &str, case_json: &str) -> Result<CaseReport, String> {
         (_, Some(c)) => format!("process exited with status {c}"),
         _ => "process died".into(),
     })
+}
+
+/// like `run_one`, but a child that died is started once more before its death is believed: a process killed from
+/// outside (OOM killer, an operator) does not die again, a case that kills its process does
+pub fn run_one_confirmed(kind: &str, case_json: &str) -> Result<CaseReport, String> {
+    match run_one(kind, case_json) {
+        Err(how) if !how.starts_with(STALL) => run_one(kind, case_json),
+        other => other,
+    }
+}
+
+/// child side of run_one: the case description is the argument itself, or "-" for "read it from stdin"
+pub fn one_arg(arg: &str) -> String {
+    if arg == "-" {
+        let mut s = String::new();
+        let _ = std::io::Read::read_to_string(&mut std::io::stdin(), &mut s);
+        s
+    } else {
+        arg.to_string()
+    }
 }
 
 /// child side of run_one
